@@ -165,6 +165,14 @@ def sessionKey (st : SSt) (rc : Bool) (views : List SView) (resp : List PResp) :
           | m :: _ => if m.first < (if rc then b.lso else b.hwm) && m.nbytes ≤ v.pmax then some "session-omits-data" else none
       | _, _ => some "session-omits-unknown-partition"))
 
+/-- bytes of everything readable from the session partitions' fetch offsets (an upper bound of what a fetch looks at). -/
+def availBytes (st : SSt) (rc : Bool) (views : List SView) : Int :=
+  views.foldl (fun acc v =>
+    match st.bounds[v.p]?, st.logs[v.p]? with
+    | some b, some log =>
+      acc + ((log.dropWhile (fun m => m.first + m.n ≤ v.off)).filter (fun m => m.first < (if rc then b.lso else b.hwm))).foldl (fun a m => a + m.nbytes) 0
+    | _, _ => acc) 0
+
 /-- One step: the operation, what the implementation answered, the bounds it reports afterwards.
 Returns the new ledger and the key of the violated clause, if any. -/
 def specStep (st : SSt) (op : Op) (out : Out) (nb : List Bounds) : SSt × Option String :=
@@ -266,8 +274,10 @@ def specStep (st : SSt) (op : Op) (out : Out) (nb : List Bounds) : SSt × Option
           let views0 := (se.views.filter (fun v => !f.forget.contains v.p))
           let views1 := f.req.foldl viewUpdate views0
           let k1 := firstSome (ps.map (fun r => fetchPartKey st2 f.rc (offOf views1 r.p) (firstP == some r.p) r))
-          -- completeness only when the byte limit cannot have cut the response
-          let k2 := if f.maxBytes ≥ 1000000 then sessionKey st2 f.rc views1 ps else none
+          -- completeness is judged whenever the request-level byte limit cannot have cut the response: kfake stops
+          -- at a partition only when the bytes of the batches it has looked at exceed MaxBytes, and it looks at
+          -- nothing but the readable batches from each session partition's fetch offset on
+          let k2 := if availBytes st2 f.rc views1 ≤ f.maxBytes then sessionKey st2 f.rc views1 ps else none
           let views2 := viewSeen views1 ps
           ({ st2 with sess := st2.sess.map (fun s => if s.id == se.id then ⟨se.id, views2⟩ else s) },
            match k1 with | some k => some k | none => k2)
